@@ -23,11 +23,12 @@ Next ==
   /\ ~done /\ done' = TRUE
   /\ \E d \in 1..Len(Docs), inp \in {"file", "stdin"}, outp \in {"stdout", "file", "same"},
         m \in Modes, via \in {"flags", "file", "both", "none"}, z \in 1..Len(Zones), lg \in 1..Len(Langs),
-        zm \in {0, 540, -480}, cur \in Currents :
+        zm \in {0, 540, -480}, cur \in Currents, cnl \in BOOLEAN :
        /\ (outp = "same" => inp = "file")
        /\ (cur # "given" => zm = 0)
+       /\ (via \in {"flags", "none"} => cnl)          \* cnl: the target config file ends with a line break
        /\ o' = [d |-> d, inp |-> inp, outp |-> outp, mode |-> m[1], json |-> m[2], via |-> via, tz |-> Zones[z],
-                lang |-> Langs[lg], zm |-> zm, cur |-> cur]
+                lang |-> Langs[lg], zm |-> zm, cur |-> cur, cnl |-> cnl]
 
 InSlice == \/ Part = "all"
            \/ Part = "clean_stdout" /\ o.mode = "clean" /\ o.outp = "stdout" /\ o.via = "none" /\ o.inp = "file"
@@ -52,7 +53,7 @@ EmitAll == (done /\ InSlice) =>
                      ELSE [op |-> "config", targets |-> Effective, now |-> "wall"],
                      [op |-> LibOp],
                      [op |-> "cli", input |-> o.inp, output |-> o.outp, mode |-> o.mode, json |-> o.json,
-                      targets_via |-> o.via, current |-> o.cur, tz |-> o.tz, lang |-> o.lang, now_zone_min |-> o.zm,
+                      targets_via |-> o.via, current |-> o.cur, conf_final_newline |-> o.cnl, tz |-> o.tz, lang |-> o.lang, now_zone_min |-> o.zm,
                       file_targets |-> FileTargets, flag_targets |-> FlagTargets,
                       omit |-> IF OmitAll THEN <<"ds", "de", "tl", "rm", "off">> ELSE <<>>]>>])
 =============================================================================
